@@ -19,6 +19,8 @@ from vf import S, Lst, B
 LANGS = ('typescript', 'kotlin', 'swift', 'scala', 'go', 'python')
 EXT = {'typescript': 'ts', 'kotlin': 'kt', 'swift': 'swift', 'scala': 'scala', 'go': 'go', 'python': 'py'}
 STUB = str(vf.ROOT / 'lib' / 'pydantic_stub')
+XCHECK = []        # (lang, real text, extracted lexer verdict) samples for the in-Coq cross-check of the thorough tier
+COLLISIONS = []    # Python Enum classes with two members of the same name (naming collision: C02)
 NAME_ERRORS = []   # Python modules that only import after an unbound name is pre-bound (name resolution: C09 / C11 / C12)
 
 # what each finding class predicts to fail (a failure of another kind on a case of the class is NEW)
@@ -186,6 +188,11 @@ def python_verdict(text):
         lines = [fr.lineno for fr in traceback.extract_tb(e.__traceback__) if fr.filename == '<generated>']
         sub = {n.lineno for n in tree.body if isinstance(n, ast.Assign) and any(isinstance(t, ast.Subscript) for t in n.targets)}
         # a failure raised BY a `Name[T] = ..` statement is the generic-alias defect itself, not a second one
+        if isinstance(e, TypeError) and 'already defined as' in str(e):
+            # two variants whose <Enum>Types member names collide (fooBar / foo_bar -> FOO_BAR): a naming collision
+            # (C02's subject), not syntax; the import stops here, so later statements are not executed: counted
+            COLLISIONS.append(str(e))
+            return fails, '; '.join(why)
         kind = 'py-import-at-generic-alias' if lines and lines[-1] in sub else 'py-import'
         if kind == 'py-import' and isinstance(e, TypeError) and ('not subscriptable' in str(e) or 'is not a generic class' in str(e)):
             kind = 'py-import-not-subscriptable'
@@ -323,6 +330,8 @@ def judge(chk, cases, tag):
         decls, labels, fails, why = obs[k]
         fails = list(fails)
         lex = lexa[j]
+        if len(text) < 900 and len(XCHECK) < 200 and (k % 37 == 0 or lex[0] != 'balanced'):
+            XCHECK.append((lang, text, lex[0] == 'balanced'))
         if lex[0] != 'balanced':
             fails.append('lex')
             pos = int(lex[1][1:]) if lex[0] == 'error' else len(text)
@@ -434,7 +443,7 @@ def run(chk):
         'the six lexers of Spec/C10Spec.v are the definition of "delimiters, string literals and comments are closed" (no compiler of the five non-Python languages is installed)',
         'grammar conformance is validated, not proved: CPython ast.parse + import against lib/pydantic_stub for Python; template recognisers of lib/extract.py for the others',
         'doc text is restricted to the safe predicate c10_doc_ok (doc-induced breakage is C15)',
-        'a Python NameError at import is name resolution (C09 / C11 / C12), counted but not judged here; any other import failure is judged',
+        'a Python NameError at import is name resolution (C09 / C11 / C12) and a duplicate Enum member name is a naming collision (C02): both counted, not judged here; any other import failure is judged',
     ]
     chk.prepare(need_cli=False)
     if not chk.harness_ok:
@@ -480,12 +489,22 @@ def run(chk):
     drift += judge(chk, snaps, 'snapshot')
     # 4. expectation files
     lex_expectations(chk)
+    # 5. thorough: the extracted lexer / recogniser verdicts re-computed inside Coq on a sample of real outputs
+    if chk.tier == 'thorough' and XCHECK:
+        ctor = {'typescript': 'CTS', 'kotlin': 'CKT', 'swift': 'CSW', 'scala': 'CSC', 'go': 'CGO', 'python': 'CPY'}
+        eqs = [f'good_C10_lex {ctor[l]} {vf.coq_lit_str(t)} = {"true" if ok else "false"}' for l, t, ok in XCHECK[:18]]
+        bad = vf.coq_check_equalities('From TS Require Import Model.Str Spec.C10Spec.\nOpen Scope N_scope.', eqs, shard=6)
+        chk.counters['in_coq_recomputations'] = len(eqs)
+        if bad:
+            chk.violation('extraction-crosscheck', {'failures': [list(b) for b in bad][:3]},
+                          'the extracted lexer and the lexer evaluated inside Coq disagree on a real output', no_input=True)
     if drift and not [v for v in chk.violations if not v[2]]:
         payload, what = drift[0]
         chk.violation('correspondence', dict(payload, disagreements=len(drift)),
                       f'model and real generator disagree on {len(drift)} case(s) although every real output is well-formed: {what}', no_input=True)
     chk.counters['render_drift'] = len(drift)
     chk.counters['python_name_errors_left_to_C09_C11_C12'] = len(NAME_ERRORS)
+    chk.counters['python_enum_member_collisions_left_to_C02'] = len(COLLISIONS)
     if NAME_ERRORS:
         chk.notes.append(f'{len(NAME_ERRORS)} Python module(s) raise NameError at import (e.g. on {NAME_ERRORS[0]}): a name used before / without its definition is name resolution (C09, C11, C12), not syntax; counted, not judged here')
 
